@@ -7,7 +7,8 @@ from . import core, generic
 def check(run):
     run._binary = run.build_harness()
     try:
-        n, s = generic.gen_replay(run, "Wire", "MC_Wire.cfg", "TestC07", "wire", workers=4, memlimit_gb=24, timeout=900)
+        n, s = generic.gen_replay(run, "Wire", "MC_Wire.cfg", "TestC07", "wire", workers=4, memlimit_gb=24, timeout=3000,
+                                   env={"VERIF_FUZZ": str(3000 if run.tier == "quick" else 60000)})
     except core.Inconclusive as e:
         if "out of memory" in str(e) or "PANIC" in str(e) or "panic:" in str(e):
             run.violation({"check": "wire-server-crashed", "prop": "C07", "first": "-", "helper": "-", "arg": "-", "observed": str(e)[-1500:]})
@@ -17,8 +18,8 @@ def check(run):
         raise
     if s["cases"] != n:
         raise core.Inconclusive("driver did not consume every case")
-    run.evaluations = n
-    run.traces = n
+    run.evaluations = n + s["mutants"]
+    run.traces = n + s["mutants_answered"]
     run.nontrivial = s["helper_calls_with_hostile_argument"] + s["malformed_or_oversized_requests"]
     run.exhaustive = True
     run.rule = ("TLC enumerates the connection behaviours of Wire.tla: 14 request classes (unknown / invalid method, malformed target and version, Content-Length abc / negative / "
@@ -26,7 +27,9 @@ def check(run):
                 "prescribed status set and connection fate, and 15 response helpers x 7 argument classes (CR, LF, CRLF + header line, CRLFCRLF + body, NUL, 6 KB, plain) x "
                 "{default, custom context}; each runs as raw bytes over an in-memory connection; responses are parsed by a strict parser (CRLF, token names, no control bytes, "
                 "Content-Length), allocation per exchange is measured, and a second request probes whether the connection is still served. "
-                "Non-trivial = hostile helper arguments + malformed/oversized requests.")
+                "On top, seeded byte-level mutants (replace/insert/delete/duplicate/bit-flip/truncate, 1-3 per request) of the class templates plus multipart, Range/If-None-Match/X-Forwarded-* "
+                "and Accept*/Cookie templates are sent to a random application variant: any answer must parse strictly, carry a status of the spec's universe, respect the allocation budget, and after a "
+                "closing status nothing more may be served. Non-trivial = hostile helper arguments + malformed/oversized requests.")
     run.extra["driver_summary"] = s
     run.extra["violations_by_check"] = dict(collections.Counter(v["check"] for v in run.violations))
     run.assumptions = ["grammar-directed enumeration, not coverage-guided fuzzing: crash-freedom is claimed only for the enumerated classes",
